@@ -770,10 +770,15 @@ def _outcome_class(fn, kwargs, allowed):
             fr = tb[-1]
             where = f"{fr.filename.split('/')[-1]}:{fr.lineno}:{fr.name}"
             func = f"{fr.filename.split('/')[-1]}:{fr.name}"
-        last = tb[-1].filename if tb else ""
-        if "/verif/harness/" in last or "/verif/engine/" in last or "/verif/geom/" in last:
-            # the exception was raised by harness code itself, not by (or below) the code under test
-            return ("harness-bug", type(ex).__name__, f"{where}: {str(ex)[:200]} [{last}:{tb[-1].lineno}]", func)
+        # who is responsible: walk up from the raising frame; the first frame that belongs to the code under test
+        # (/repo) or to a stub standing in for a library makes it an outcome of the code under test; if harness /
+        # engine / geom code is met first (it called into a library itself), it is a harness bug
+        for fr in reversed(tb):
+            fnm = fr.filename
+            if "/repo/" in fnm or "/verif/stubs/" in fnm:
+                break
+            if "/verif/harness/" in fnm or "/verif/engine/" in fnm or "/verif/geom/" in fnm:
+                return ("harness-bug", type(ex).__name__, f"{str(ex)[:200]} [{fnm}:{fr.lineno}]", func)
         return ("raised", type(ex).__name__, f"{where}: {str(ex)[:200]}", func)
 
 
